@@ -221,6 +221,39 @@ def wiring(n, kind, supp=False):
     return ob
 
 
+QUERIES = ['UBER EATS', 'Uber Eats', 'Parking Meter', 'N1', 'M1']
+
+
+def explain_merchant_lookup():
+    """`tally explain <merchant>`: the merchant explained is the one up reports under exactly that name."""
+    W.rules_path('rules')
+    W.rules_path('csv')
+
+    def ob(qi: int, ex1: bool) -> bool:
+        """
+        pre: 0 <= qi <= 4
+        post: _
+        """
+        from tally.commands import explain as exmod
+        from tally.analyzer import analyze_transactions
+        reset_tally_caches()
+        flags = [{'exists': True}, {'exists': bool(ex1)}]
+        rec = W.Recorder(flags, rules_kind='rules', real_analyze=True)
+        args = _args_explain()
+        q = QUERIES[int(qi)]
+        args.merchant = [q]
+        W.run_command(exmod, 'cmd_explain', args, rec)
+        txns = [t for i, f in enumerate(flags) if f['exists'] for t in W.canned_txns(i)]
+        up = analyze_transactions(txns)['by_merchant']
+        calls = [c for c in rec.calls if c[0] == '_print_merchant_explanation']
+        if q in up:
+            ok = len(calls) == 1 and calls[0][1][0] == q and calls[0][1][1]['category'] == up[q]['category'] and calls[0][1][1]['count'] == up[q]['count']
+        else:
+            ok = all(c[1][0] in up for c in calls)
+        return post(ok)
+    return ob
+
+
 def obligations(tier, seed):
     q = tier == 'quick'
     obs = []
@@ -234,6 +267,8 @@ def obligations(tier, seed):
         for kind in ['rules', 'csv']:
             obs.append(Obligation(id=f'wiring-n{n}-{kind}', factory='wiring', params={'n': n, 'kind': kind}, timeout=170 if q else 900, group='explain / discover / up wiring',
                                   bounds=f'{n} sources (no supplemental source), rules file kind {kind}; symbolic file-exists and decimal-separator flags per source, symbolic rule mode'))
+    obs.append(Obligation(id='explain-merchant-lookup', factory='explain_merchant_lookup', timeout=170 if q else 600, group='explain / discover / up wiring',
+                          bounds='explain <merchant> for a symbolic choice among 5 names (two differ only in letter case); second source exists or not'))
     obs.append(Obligation(id='known-supplemental-sources', factory='wiring', params={'n': 2, 'kind': 'rules', 'supp': True}, kind='known',
                           known_key='C16:explain-discover-treat-supplemental-as-transactions', timeout=120, group='known findings',
                           bounds='2 sources, the second supplemental'))
